@@ -10,7 +10,7 @@
    final    the table at quiescence through the public API: must equal the model's table, every process
             must be finished, and the statement of C16 must hold for the REAL results.
    Every event advances i by one, so the trace was accepted iff the search reaches depth Len(TraceLog)+1. *)
-EXTENDS Symbols, Json, TLCExt
+EXTENDS Symbols, Json
 
 TraceLog == ndJsonDeserialize("symtrace.ndjson")
 
